@@ -7,6 +7,7 @@ use std::collections::BTreeMap;
 
 pub mod dispatch;
 pub mod reply;
+pub mod twin;
 pub mod wire;
 
 #[derive(Clone, Debug, PartialEq, serde::Serialize, serde::Deserialize)]
